@@ -278,7 +278,7 @@ func Families(tier string) []Family {
 	// tree: command trees with functions, own options, wrappers, help (C10)
 	{
 		f := Family{Name: "tree"}
-		toks := Ts("a", "b", "s", "w", "--r", "--r=a", "--l", "--ao", "--so", "--", "x", "help", "--help", "--u")
+		toks := Ts("a", "b", "s", "w", "--r", "--r=a", "--l", "--ao", "--so", "--", "x", "7", "help", "--help", "--u")
 		for mode := 0; mode < 3; mode += 2 {
 			for variant := 0; variant < 3; variant++ {
 				c := Cfg{Mode: mode}
@@ -286,6 +286,10 @@ func Families(tier string) []Family {
 				case 0: // root fn; a(fn, own ao) -> s(fn, own so); b without fn; help
 					c.Nodes = []NodeCfg{rootNode(0, false), cmdNode("a", 1, 0, false, true), cmdNode("s", 2, 0, false, true), cmdNode("b", 1, 0, false, false)}
 					c.Nodes[0].Fn = true
+					c.Nodes[0].ReqArgs = []string{"s", "i"}
+					c.Nodes[1].ReqArgs = []string{"f", "s", "s"}
+					c.Nodes[1].Args = Ts("<num>", "<name>")
+					c.Nodes[1].ArgsD = Ts("a number", "")
 					c.Opts = []OptCfg{opt("string", "r", 1), opt("bool", "ao", 2), opt("bool", "so", 3), multi("sslice", "l", 1, 1, 3)}
 					c = WithHelp(c, "help")
 				case 1: // root without fn; a without fn -> s fn; w wrapper; no help
@@ -402,6 +406,9 @@ func Families(tier string) []Family {
 				profile.Sugg = Ts("dev", "production", "staging")
 				level := opt("string", "level", 1, "l")
 				level.Valid = Ts("debug", "info")
+				if variant == 1 {
+					level.SuggFn = Ts("dynamic", "debug2")
+				}
 				c.Opts = []OptCfg{opt("bool", "flag", 1), opt("bool", "fleg", 1), profile, level, opt("bool", "lo", 2), opt("string", "s", 3), opt("bool", "f", 3)}
 				if variant == 1 {
 					c.Nodes[0].Ro = true
@@ -486,6 +493,31 @@ func Families(tier string) []Family {
 			}
 			c = WithHelp(c, "help", "?")
 			f.Defs = append(f.Defs, Def{Cfg: c, Tokens: toks, L: lim(tier, 2, 3), Disp: true, HelpF: true})
+		}
+		fams = append(fams, f)
+	}
+
+	// valid: options with enforced valid values, on the command line and through the environment (C12, C01)
+	{
+		f := Family{Name: "valid"}
+		toks := Ts("--s", "--s=a", "--s=x", "--l", "--l=a", "a", "b", "x", "--io=1", "--io=3", "--")
+		for mode := 0; mode < 3; mode++ {
+			for _, ev := range []string{"<unset>", "a", "x"} {
+				c := Cfg{Mode: mode}
+				c.Nodes = []NodeCfg{rootNode(0, false)}
+				sv := opt("string", "s", 1)
+				sv.Valid = Ts("a", "b")
+				sv.Env = T("VERIF_ENV_V")
+				lv := multi("sslice", "l", 1, 1, 2)
+				lv.Valid = Ts("a", "b")
+				iv := opt("iopt", "io", 1)
+				iv.Valid = Ts("1", "2")
+				c.Opts = []OptCfg{sv, lv, iv}
+				if ev != "<unset>" {
+					c.Env = []EnvCfg{{Name: T("VERIF_ENV_V"), Val: T(ev)}}
+				}
+				f.Defs = append(f.Defs, Def{Cfg: c, Tokens: toks, L: lim(tier, 3, 4)})
+			}
 		}
 		fams = append(fams, f)
 	}
